@@ -21,7 +21,7 @@ import (
 func init() {
 	Register("C27", &Info{
 		Run:   runC27,
-		Quick: 9000, Thor: 300000,
+		Quick: 9000, Thor: 1200000,
 		Rule: "a world = two connections made by MakeConnWithCompleteHandshake (one client, one server) from the same drawn version (1.0-1.2), suite (every documented TLS<=1.2 suite incl. RC4, 3DES, the legacy ChaCha20 code points and the EnableWeakCiphers suites, by run index; plus drawn unsupported ids: TLS 1.3 suites, GREASE, unknown), master secret and randoms, joined by a simulated link; both ends write drawn sizes concurrently (optionally followed at once by CloseWrite, so that close_notify travels right behind the data) and read what the other wrote with a drawn buffer size (16 B .. 32 kB), to the end of the stream in the CloseWrite case, scheduled at every transport and lock operation; optional bit flip on the wire; oracle: unsupported id => nil on both ends; otherwise each side reads exactly what the other wrote (prefix + error after a flip); non-trivial = both ends non-nil and data sent; distinct = (suite, version, sizes, fault)",
 		Assumptions: []string{"EnableWeakCiphers is process-global: a C27 worker process enables it before its first world; every second worker process (VERIF_PROCMODE=1, recorded in the replay file) forges connections before the opt-in call"},
 		Real:        []string{"utls MakeConnWithCompleteHandshake, Conn record layer from /repo (both ends)"},
@@ -29,7 +29,7 @@ func init() {
 	})
 	Register("C28", &Info{
 		Run:   runC28,
-		Quick: 6000, Thor: 200000,
+		Quick: 6000, Thor: 500000,
 		Rule: "a world = one connection with an AEAD suite (TLS 1.2: AES-GCM and ChaCha20 suites; TLS 1.3: the three suites) against the repository or std server; after k drawn echo rounds (sequence position) the client calls GetOutKeystream(n) for a drawn n (0..record size), then writes a drawn plaintext; the ciphertext of that record is taken from the wire tap; oracle: keystream XOR plaintext == ciphertext after the explicit nonce, for min(n, len) bytes; the peer still accepts that record and all later ones (echo continues); non-trivial = keystream compared with a captured record; distinct = (version, suite, n, position, plaintext length)",
 		Assumptions: []string{"explicit nonce: 8 bytes for TLS 1.2 AES-GCM records, none for ChaCha20 and TLS 1.3 (RFC 5288, 7905, 8446)"},
 		Real:        []string{"utls client (GetOutKeystream, record layer) from /repo", "utls or std server"},
